@@ -37,7 +37,7 @@ fn c12_data() -> gen::VS {
 
 fn key_values() -> gen::VS {
     prop_oneof![
-        8 => select(vec!["a", "b", "c", "d", "0", "1", "a.b", "a\\.b", "é", "k", "zz", "a.b.c", "a.d.e", "a.c", "b.0", "b.3", "b.-1", "x\\\\y", "a.0", "nope", "2", "-1"]).prop_map(|s| json!(s)),
+        8 => select(vec!["", "a", "b", "c", "d", "0", "1", "a.b", "a\\.b", "é", "k", "zz", "a.b.c", "a.d.e", "a.c", "b.0", "b.3", "b.-1", "x\\\\y", "a.0", "nope", "2", "-1"]).prop_map(|s| json!(s)),
         2 => (-2i64..5).prop_map(gen::j),
         1 => Just(Value::Null),
     ]
